@@ -101,8 +101,21 @@ def run(pid, kind, tier, seed, what):
                     chk.broken("synthesiser model (M_Compiler.v) and InternalCompiler produce different circuits", mc["mismatches"][:5])
         except Exception as e:  # noqa
             chk.broken("the synthesiser-model correspondence could not be run", repr(e)[:500])
+    names_cov = {}
+    if kind == "c02":
+        # the name add_ancilla gives a new scratch qubit (M_Names.v): observed choices vs the model, and never a program symbol's name
+        try:
+            from . import c02_names
+            nc = c02_names.collect(tier, seed)
+            names_cov = {k: v for k, v in nc.items() if k not in ("mismatches", "direct")}
+            for d in nc["direct"]:
+                chk.violation("a scratch qubit took the name of a program symbol", d)
+            if nc["mismatches"] and not nc["direct"]:
+                chk.broken("model of the ancilla naming (M_Names.v) and QCircuitEnhanced.add_ancilla choose different names", nc["mismatches"][:5])
+        except Exception as e:  # noqa
+            chk.broken("the ancilla-naming correspondence could not be run", repr(e)[:500])
     chk.coverage.update(
-        synthesiser_model=model_cov,
+        synthesiser_model=model_cov, ancilla_naming=names_cov,
         programs=decided, evaluations=decided, distinct_nontrivial=len(nontrivial),
         disagreements_checked=sum(1 for v in chk.violations),
         rule="corpus = function strings harvested from /repo/test + operator/width templates + boolean functions given by truth table "
